@@ -1,7 +1,6 @@
 package main
 
 import (
-	"strings"
 	"fmt"
 	"go/ast"
 	"go/constant"
@@ -9,6 +8,7 @@ import (
 	"go/types"
 	"os"
 	"strconv"
+	"strings"
 )
 
 func (w *World) fileData(name string) []byte {
